@@ -202,7 +202,7 @@ def spelling_probe(ctx):
                         why = "get_many differs from the per-key gets: %r vs %r" % (sorted(map(repr, many.items()))[:3], sorted(map(repr, single.items()))[:3])
                     elif {k: v[0] for k, v in gmany.items()} != single:
                         why = "gets_many differs from the per-key gets"
-                    elif hc.delete_many(keys) is not True or any(hc.get(k) is not None for k in keys):
+                    elif hc.delete_many(iter(keys)) is not True or any(hc.get(k) is not None for k in keys):
                         why = "delete_many did not remove what set_many wrote"
                 except BaseException as e:  # noqa
                     why = "raised %s: %s" % (type(e).__name__, str(e)[:100])
@@ -303,8 +303,10 @@ def search(ctx):
                 # multi-key batches, every server up: each server must receive exactly the keys placed on it, each key once
                 if not (found and found[-1]["size"] == len(hist)) and list(hc.hasher.nodes) == nodes_before and hc.hasher.nodes:
                     ks = rng.sample(keys, rng.randrange(2, 9))
-                    for fam, call in (("set_many", lambda: hc.set_many({k: b"3" for k in ks})), ("get_many", lambda: hc.get_many(ks)),
-                                      ("gets_many", lambda: hc.gets_many(ks)), ("delete", lambda: hc.delete_many(ks))):
+                    # key collections as lists and as one-shot iterators (each key must still be sent exactly once)
+                    coll = (lambda x: iter(list(x))) if trial % 2 else (lambda x: list(x))
+                    for fam, call in (("set_many", lambda: hc.set_many({k: b"3" for k in ks})), ("get_many", lambda: hc.get_many(coll(ks))),
+                                      ("gets_many", lambda: hc.gets_many(coll(ks))), ("delete", lambda: hc.delete_many(coll(ks)))):
                         MemServer.calls = []
                         # a server with a failure record may be inside its retry window: it is then legitimately not contacted at all
                         pending = {hs.server_name(sv) for sv in hc._failed_clients}
@@ -341,4 +343,16 @@ def search(ctx):
 
 
 def replay(ctx, obj):
+    v = obj.get("violation")
+    if v and v.get("spelling_case"):
+        global SPELLED
+        servers, pooling, prefix = eval(v["spelling_case"])
+        saved, SPELLED = SPELLED, [servers]
+        try:
+            found, _ = spelling_probe(ctx)
+        finally:
+            SPELLED = saved
+        hit = [f for f in found if eval(f["spelling_case"]) == (servers, pooling, prefix)]
+        print(hit[0]["clause"] if hit else "multi-key operations agree with the per-key ones for %r" % (servers,))
+        return bool(hit)
     return None
